@@ -141,6 +141,7 @@ type ContractSet struct {
 	notes     []string
 	renames   []*rebinding
 	dispatch  []*DispatchCheck
+	curSigs   map[string]map[string]*funcSig // the functions of the current tree, per package directory
 }
 
 // DispatchCheck: a structural obligation decided by go/types on every run.
@@ -765,11 +766,16 @@ type funcSig struct {
 	rnames  []string
 	file    string
 	calls   []string // names of the functions and methods the body calls (syntactic)
+	loops   int      // for / range statements in the body (function literals included)
+	nest    string   // their nesting: "L" per loop, children in parentheses, e.g. "L(L)L"
 }
 
 // structFields: struct type name -> field name -> type, of the package last scanned by scanPackage (used by the
 // re-binding of contracts of renamed functions only)
 var structFields = map[string]map[string]map[string]string{}
+
+// codecMethods: type name -> "method M" for each (de)serialisation hook declared on it, per scanned directory
+var codecMethods = map[string]map[string][]string{}
 
 // structShapes: struct type name -> its fields in order, each as "Name Type `tag`" (embedded: "Type `tag`"), per scanned directory
 var structShapes = map[string]map[string][]string{}
@@ -788,6 +794,8 @@ func scanPackage(dir string) (map[string]*funcSig, []importSpec, error) {
 		return nil, nil, err
 	}
 	sigs := map[string]*funcSig{}
+	delete(codecMethods, dir)
+	initAcc := map[string]*funcSig{} // per file: its init function
 	var imps []importSpec
 	for _, ent := range ents {
 		n := ent.Name()
@@ -849,6 +857,17 @@ func scanPackage(dir string) (map[string]*funcSig, []importSpec, error) {
 			if !ok {
 				continue
 			}
+			if fd.Recv != nil && len(fd.Recv.List) == 1 {
+				switch fd.Name.Name {
+				case "MarshalXML", "UnmarshalXML", "MarshalXMLAttr", "UnmarshalXMLAttr", "MarshalText", "UnmarshalText", "MarshalJSON", "UnmarshalJSON", "Valid":
+					// the hooks through which a type takes over its own (de)serialisation or validity: part of its shape
+					rt := strings.TrimPrefix(exprString(fset, fd.Recv.List[0].Type), "*")
+					if codecMethods[dir] == nil {
+						codecMethods[dir] = map[string][]string{}
+					}
+					codecMethods[dir][rt] = append(codecMethods[dir][rt], "method "+fd.Name.Name)
+				}
+			}
 			key := fd.Name.Name
 			if fd.Recv != nil && len(fd.Recv.List) == 1 {
 				key = "(" + exprString(fset, fd.Recv.List[0].Type) + ")." + key
@@ -873,6 +892,53 @@ func scanPackage(dir string) (map[string]*funcSig, []importSpec, error) {
 					return true
 				})
 				sort.Strings(sigs[key].calls)
+				ast.Inspect(fd.Body, func(x ast.Node) bool {
+					switch x.(type) {
+					case *ast.ForStmt, *ast.RangeStmt:
+						sigs[key].loops++
+					}
+					return true
+				})
+				var nest func(n ast.Node) string
+				nest = func(n ast.Node) string {
+					out := ""
+					ast.Inspect(n, func(x ast.Node) bool {
+						if x == nil || x == n {
+							return true
+						}
+						var body *ast.BlockStmt
+						switch l := x.(type) {
+						case *ast.ForStmt:
+							body = l.Body
+						case *ast.RangeStmt:
+							body = l.Body
+						}
+						if body != nil {
+							out += "L"
+							if in := nest(body); in != "" {
+								out += "(" + in + ")"
+							}
+							return false
+						}
+						return true
+					})
+					return out
+				}
+				sigs[key].nest = nest(fd.Body)
+			}
+			if fd.Name.Name == "init" && fd.Recv == nil {
+				// several init functions share the name: their loops are added up
+				if prev := initAcc[n]; prev == nil {
+					initAcc[n] = sigs[key]
+				}
+				tot, nst := 0, ""
+				for _, fname := range sortedKeys(initAcc) {
+					tot += initAcc[fname].loops
+					nst += initAcc[fname].nest
+				}
+				agg := *sigs[key]
+				agg.loops, agg.nest = tot, nst
+				sigs[key] = &agg
 			}
 			// function literals, numbered the way go/ssa names them: Outer$1, Outer$2, Outer$1$1 ...
 			var lits func(node ast.Node, prefix string)
@@ -897,7 +963,30 @@ func scanPackage(dir string) (map[string]*funcSig, []importSpec, error) {
 			}
 		}
 	}
+	for tname, ms := range codecMethods[dir] {
+		if shape, ok := structShapes[dir][tname]; ok {
+			has := false
+			for _, l := range shape {
+				if strings.HasPrefix(l, "method ") {
+					has = true
+				}
+			}
+			if !has {
+				sort.Strings(ms)
+				structShapes[dir][tname] = append(shape, ms...)
+			}
+		}
+	}
 	return sigs, imps, nil
+}
+
+func sortedKeys(m map[string]*funcSig) []string {
+	var ks []string
+	for k := range m {
+		ks = append(ks, k)
+	}
+	sort.Strings(ks)
+	return ks
 }
 
 func buildSig(fset *token.FileSet, n string, recv *ast.FieldList, ftype *ast.FuncType) *funcSig {
@@ -981,6 +1070,10 @@ func (cs *ContractSet) buildOverlay() (map[string][]byte, error) {
 		if err != nil {
 			return nil, err
 		}
+		if cs.curSigs == nil {
+			cs.curSigs = map[string]map[string]*funcSig{}
+		}
+		cs.curSigs[dir] = sigs
 		sf := cs.files[dir]
 		if sf == nil {
 			sf = &specFile{pkgDir: dir}
@@ -1316,6 +1409,8 @@ func (cs *ContractSet) resolve(e *Engine) {
 	}
 	e.stale = append(e.stale, cs.notes...)
 	e.dispatch = cs.dispatch
+	e.curSigs = cs.curSigs
+	e.funcBase = loadFuncBaseline()
 	for _, ct := range cs.contracts {
 		fn := e.funcs[ct.Key]
 		if fn == nil {
